@@ -422,12 +422,15 @@ def gen_c27_seq(rng, length):
                                             ctrl(0x0d, "3b"), ctrl(0x11, "0f3b"), ctrl(0x11, "163b"), ctrl(0x07, "0f"), ctrl(0x07, "16"), ctrl(0x07, "0c"),
                                             ctrl(0x0a), ctrl(0x0b), ctrl(0x06), ctrl(0x13), ctrl(0x10, "00" * 23), ctrl(0x09, "00" * 8), ctrl(0x17, "0101"),
                                             ctrl(0x18, "0000" + le(0, 2)), ctrl(0x18, "0102" + le(n + 3, 2)), ctrl(0x01, "ffffffff1f" + le(n + 4, 2)),
-                                            ctrl(0x00, "01" + le(0, 2) + le(24, 2) + le(0, 2) + le(72, 2) + le(n + 3, 2))]))
+                                            ctrl(0x00, "01" + le(0, 2) + le(24, 2) + le(0, 2) + le(72, 2) + le(n + 3, 2)),
+                                            # instants around the event counter: passed, now, next event, reachable, 32767 / 32768 ahead
+                                            ctrl(0x18, "0102" + le((n + rng.choice([-2, -1, 0, 1, 2, 3, 32766, 32767, 32768])) % 65536, 2)),
+                                            ctrl(0x01, "ffffffff1f" + le((n + rng.choice([-2, -1, 0, 1, 2, 3, 32766, 32767, 32768])) % 65536, 2)),
+                                            ctrl(0x00, "01" + le(0, 2) + le(24, 2) + le(0, 2) + le(72, 2) + le((n + rng.choice([-2, -1, 0, 1, 2, 3, 32766, 32767, 32768])) % 65536, 2))]))
                 else:
                     t = table_pdu(rng.randrange(256) if rng.random() < 0.3 else rng.choice([0, 1, 2, 3, 6, 7, 8, 0xa, 0xb, 0xc, 0xd, 0xf, 0x11, 0x12, 0x16, 0x18, 0x19, 0x23]),
                                   rng.randrange(1, 28), rng.randrange(3))
-                    if t[2:4] not in ("00", "01", "18"):
-                        pdus.append(t)
+                    pdus.append(t)
             ops.append(("ev " + " ".join(pdus)).strip())
             n += 1
         elif r < 0.80:
@@ -439,8 +442,7 @@ def gen_c27_seq(rng, length):
         elif r < 0.96:
             ops.append(rng.choice(["api version", "api paramll 10 20 0 100", "api param 10 20 0 100", "api phy 2 2", "api version"]))
         else:
-            ops.append("connect 24 72")
-            n = 0
+            ops.append("connect 24 72")    # refused while connected: the event counter goes on
     return ops
 
 
@@ -757,7 +759,7 @@ PROPS = {
         level="proof",
         technique="Lean 4 theorems about handle_ll_control_data for every state, opcode, length and payload + correspondence exhaustive in opcode x size (x 3 payload patterns x 2 link layer types) on the real link layer + independent Python table",
         level_text="Per-PDU theorems for all states: the known requests get exactly their specified answer (ping, feature set intersected, first version indication, phy, parameter request echo / reject), everything that is not one of the recognised (opcode, length[, state]) shapes and is not LL_UNKNOWN_RSP gets LL_UNKNOWN_RSP(opcode), LL_UNKNOWN_RSP / LL_REJECT_IND / LL_REJECT_EXT_IND / LL_PAUSE_ENC_RSP are never answered, a running procedure timer ends the connection with reason 0x22 exactly when the accumulated event time reaches 40 s. Three parts of the sentence are false of the code and kept as witnesses + known findings (second LL_VERSION_IND after remote_versions_request, response opcodes the peripheral cannot expect are answered with LL_UNKNOWN_RSP, LL_PHY_REQ starts no timer).",
-        level_note="Correspondence is exhaustive in opcode x size only in the thorough tier; instants of opcodes 00/01/18 are kept 100 events ahead (C21).",
+        level_note="Correspondence is exhaustive in opcode x size only in the thorough tier; the table keeps the instants of opcodes 00/01/18 100 events ahead, the sequence stream exercises instants around the event counter (model = instant_passed() of fix d12fb4f).",
         design_ref="§5 C27",
         assumptions=["peripheral latency 0; buffers never full; no_signaling_channel; no_desired_connection_parameters"],
     ),
